@@ -337,14 +337,38 @@ def whole_input(ctx, run, rule, fn, err_variant):
     ps, _ = explore(b)
     n = 0
     bad = 0
+    unread = 0
     for p in ps:
         if p.end[0] != 'return' or not (agg_variant(p.ret) and p.ret[1][2] == 'Ok'):
             continue
         n += 1
-        ok = any(is_call(c[0], 'slice::is_empty') and c[2] is True and any(s[0] == 'downcast' and s[2] == 'Ok' for s in subterms(c[0])) for c in p.conds)
+        def of_rest(t):
+            return any(s[0] == 'downcast' and s[2] == 'Ok' for s in subterms(t))
+        ok = any(is_call(c[0], 'slice::is_empty') and c[2] is True and of_rest(c[0]) for c in p.conds)
+        # the same test written on the length: rest.len() == 0, a slice pattern `[]`, rest.len() < 1 ...
         if not ok:
-            bad += 1
-    if n and not bad:
+            from pathfacts import PathFacts
+            from panics import norm_conds
+            try:
+                pf = PathFacts(norm_conds(p.conds), nonneg=lambda a: True)
+                for c in p.conds:
+                    for s_ in subterms(c[0]):
+                        if (s_[0] == 'len' or is_call(s_, 'slice::len')) and of_rest(s_):
+                            from panics import norm
+                            r_ = pf.range_of_term(norm(s_) if s_[0] == 'len' else s_)
+                            if not r_.empty() and r_.hi() == 0:
+                                ok = True
+            except Exception:
+                pass
+        if not ok:
+            # a test of the rest made by something this rule does not read (a helper, first(), a pattern on its content)
+            if any(of_rest(c[0]) and c[0][0] != 'discr' for c in p.conds):
+                unread += 1
+            else:
+                bad += 1
+    if n and not bad and unread:
+        run.undecided(rule, fn, 'whole-input', f'{unread} Ok return(s) follow a test of the unparsed rest that this rule does not read as "rest is empty": not decided', f'{b.file}:{b.line}')
+    elif n and not bad:
         run.proved(rule, fn, 'whole-input', f'every Ok return ({n}) is taken only when the unparsed rest is empty', f'{b.file}:{b.line}')
     else:
         run.violation(rule, fn, 'whole-input', 'a successful return does not require the rest of the input to be empty: input with trailing garbage is accepted', f'{b.file}:{b.line}')
@@ -594,9 +618,23 @@ def r16_4(ctx, run, rule='R16.4'):
                                                f'{k} is printed as {got.get(k)}; expected {w} (Display of the name between plain quotes): other formatting does not parse back')
     dt = display_table(ctx, "<keypath::KeyPaths<'a> as std::fmt::Display>::fmt") or {}
     lits = [p[1] for alts in dt.values() for alt in alts for p in alt if p[0] == 'lit']
-    ok = '{' in lits and '}' in lits and ',' in lits
-    (run.proved if ok else run.violation)(rule, 'keypath::KeyPaths', 'punctuation', '{ , }' if ok else f'printer literals {lits}')
+    # closures of the impl (try_for_each, for_each ...) print too
+    for pth_ in sorted(x for x in f.bodies if x.startswith("<keypath::KeyPaths<'a> as std::fmt::Display>::fmt::{closure")):
+        dtc = display_table(ctx, pth_) or {}
+        lits += [p[1] for alts in dtc.values() for alt in alts for p in alt if p[0] == 'lit']
+    joined = ''.join(lits)
+    ok = '{' in joined and '}' in joined and ',' in joined
+    foreign = [ch for ch in joined if ch in '[]();:|<>']
+    if ok:
+        run.proved(rule, 'keypath::KeyPaths', 'punctuation', '{ , }')
+    elif foreign:
+        run.violation(rule, 'keypath::KeyPaths', 'punctuation', f'printer literals {lits}')
+    else:
+        run.undecided(rule, 'keypath::KeyPaths', 'punctuation', f'the literals `{{`, `,`, `}}` were not all found in the Display impl as this rule reads it (found {lits}; written through a helper or adaptor?): not decided')
     b = f.bodies.get('keypath::key_paths')
+    if b is None:
+        run.undecided(rule, 'keypath::key_paths', 'punctuation', 'the list grammar function was not found under this name (renamed?): not decided')
+        return
     chars = set()
     if b is not None:
         # the list grammar and the private helpers it is split into
@@ -615,6 +653,136 @@ def r16_4(ctx, run, rule='R16.4'):
 
 # ------------------------------------------------------------------ R09.11 parenthesisation of nested && / ||
 
+def enum_fn_table(body):
+    """{variant index | 'otherwise': constant} for a function of one enum argument that returns a constant chosen by the argument's discriminant"""
+    ps, _ = explore(body)
+    tab = {}
+    for q in ps:
+        if q.end[0] != 'return':
+            continue
+        r = deref_all(q.ret)
+        if r[0] != 'const':
+            return None
+        ds = [c for c in q.conds if c[0][0] == 'discr' and deref_all(c[0][1])[0] == 'init' and deref_all(c[0][1])[1] == 1]
+        if len(ds) != 1 or len(q.conds) != 1:
+            return None
+        c = ds[0]
+        if c[1] == 'eq':
+            tab[c[2]] = r[1]
+        else:
+            tab['otherwise'] = r[1]
+    return tab or None
+
+
+def closure_parenthesises(f, cpath, ops):
+    """Does the decision closure `|child: &Expr| -> bool` answer true for every child that is an && / || expression, whatever the
+    enclosing operator?  True / False / None (not evaluable).  Evaluates the closure's paths for child = BinaryOp{op: And|Or} and an
+    enclosing operator And|Or, reading discriminant tests, == on operator constants and calls of constant-valued enum functions."""
+    cb = f.bodies.get(cpath)
+    if cb is None or cb.argc != 2:
+        return None
+    ev = [v['name'] for v in f.adts['jsonpath::path::Expr']['variants']]
+    if 'BinaryOp' not in ev or 'And' not in ops or 'Or' not in ops:
+        return None
+    BIN = ev.index('BinaryOp')
+    ps, _ = explore(cb)
+    tables = {}
+
+    def which(t):
+        """'expr' / 'child_op' / 'parent_op' for a place term of the closure, else None"""
+        t = deref_all(t)
+        while t[0] == 'cast':
+            t = deref_all(t[2])
+        if t[0] == 'init' and t[1] == 2:
+            return 'expr'
+        if t[0] == 'field' and t[2] == 'op' and t[1][0] == 'downcast' and t[1][2] == 'BinaryOp' and which(t[1][1]) == 'expr':
+            return 'child_op'
+        if t[0] == 'field' and deref_all(t[1])[0] == 'init' and deref_all(t[1])[1] == 1:
+            return 'parent_op'      # a captured variable of the closure (the enclosing operator)
+        return None
+
+    def val(t, env):
+        t0 = deref_all(t)
+        if t0[0] == 'const':
+            return t0[1]
+        w = which(t0)
+        if w in ('child_op', 'parent_op'):
+            return ('op', env[w])
+        if agg_variant(t0) and t0[1][1].endswith('BinaryOperator'):
+            return ('op', ops.index(t0[1][2]))
+        if t0[0] == 'discr':
+            w = which(t0[1])
+            if w == 'expr':
+                return BIN
+            if w in ('child_op', 'parent_op'):
+                return env[w]
+            return None
+        if t0[0] == 'un' and t0[1] == 'Not':
+            v = val(t0[2], env)
+            return None if v is None else (not v)
+        if t0[0] == 'bin':
+            a, c = val(t0[2], env), val(t0[3], env)
+            if a is None or c is None:
+                return None
+            a = a[1] if isinstance(a, tuple) else a
+            c = c[1] if isinstance(c, tuple) else c
+            try:
+                return {'Lt': a < c, 'Le': a <= c, 'Gt': a > c, 'Ge': a >= c, 'Eq': a == c, 'Ne': a != c, 'BitOr': a | c, 'BitAnd': a & c}.get(t0[1])
+            except Exception:
+                return None
+        if t0[0] == 'call':
+            nm = canon(t0[1])
+            if nm.endswith(('PartialEq::eq', 'PartialEq::ne')) and len(t0[2]) == 2:
+                a, c = val(t0[2][0], env), val(t0[2][1], env)
+                if a is None or c is None:
+                    return None
+                return (a == c) if nm.endswith('eq') else (a != c)
+            tb = f.bodies.get(t0[1])
+            if tb is not None and tb.argc == 1 and len(t0[2]) == 1:
+                a = val(t0[2][0], env)
+                if isinstance(a, tuple) and a[0] == 'op':
+                    tab = tables.setdefault(t0[1], enum_fn_table(tb))
+                    if tab:
+                        return tab.get(a[1], tab.get('otherwise'))
+            return None
+        return None
+
+    verdict = True
+    for child in ('And', 'Or'):
+        for parent in ('And', 'Or'):
+            env = {'child_op': ops.index(child), 'parent_op': ops.index(parent)}
+            res = None
+            decided = False
+            for q in ps:
+                if q.end[0] != 'return':
+                    continue
+                feas = True
+                for c in q.conds:
+                    v = val(c[0], env)
+                    if v is None:
+                        feas = None
+                        break
+                    v = v[1] if isinstance(v, tuple) else v
+                    holds = (v == c[2]) if c[1] == 'eq' else (v not in c[2] if isinstance(c[2], tuple) else v != c[2])
+                    if not holds:
+                        feas = False
+                        break
+                if feas is None:
+                    return None
+                if feas:
+                    r = val(q.ret, env)
+                    if r is None or isinstance(r, tuple):
+                        return None
+                    res = bool(r)
+                    decided = True
+                    break
+            if not decided:
+                return None
+            if not res:
+                verdict = False
+    return verdict
+
+
 def r09_11(ctx, run, rule='R09.11'):
     """Display for Expr: an operand of a binary operator that is itself an && or || expression is printed in
     parentheses (the grammar parses a flat && / || chain left-deep, so an unparenthesised nested group re-associates)."""
@@ -629,6 +797,7 @@ def r09_11(ctx, run, rule='R09.11'):
     ex = Explorer(b, max_paths=6000)
     n = 0
     bad = []
+    unread = []
     for s0 in [0] + sorted(loops):
         for q in ex.explore(start=s0, stop=set(loops)):
             if q.end[0] in ('unreachable',):
@@ -669,12 +838,32 @@ def r09_11(ctx, run, rule='R09.11'):
                 known_connective = is_bin is True and (op_tests.get('And') is True or op_tests.get('Or') is True)
                 if not paren and may_be_connective:
                     which = [k for k in ('And', 'Or') if op_tests.get(k) is not False]
-                    bad.append(f'the {side} operand is printed without parentheses on a path where it may be a nested {"/".join(which)} expression')
+                    # a decision about this operand taken by something this rule does not read (a closure, a helper, matches! on a copy)
+                    delegated = any(c[0][0] == 'call' and not canon(c[0][1]).endswith('PartialEq::eq') and
+                                    any(s_[0] == 'field' and s_[2] == side for a_ in c[0][2] for s_ in subterms(a_)) for c in conds)
+                    if delegated:
+                        # evaluate the deciding closure for every && / || child under every && / || parent
+                        dec = None
+                        for c in conds:
+                            if c[0][0] == 'call' and '{closure' in c[0][1] and c[2] is False and any(s_[0] == 'field' and s_[2] == side for a_ in c[0][2] for s_ in subterms(a_)):
+                                dec = closure_parenthesises(f, c[0][1], ops)
+                        if dec is True:
+                            pass          # the closure answers true for every connective child: this bare write is not reached for one
+                        elif dec is False:
+                            bad.append(f'the {side} operand is printed without parentheses when the deciding closure answers false, and it answers false for some nested &&/|| operand '
+                                       '(for example the same operator nested on the right)')
+                        else:
+                            unread.append(side)
+                    else:
+                        bad.append(f'the {side} operand is printed without parentheses on a path where it may be a nested {"/".join(which)} expression')
                 if paren and not known_connective and is_bin is not True:
                     pass
     loc = f'{b.file}:{b.line}'
     if bad:
         run.violation(rule, impl, 'parens', '; '.join(sorted(set(bad))) + ': `a && (b && c)` prints as `a && b && c`, which parses back as `(a && b) && c`', loc)
+    elif unread:
+        run.undecided(rule, impl, 'parens', f'the {"/".join(sorted(set(unread)))} operand is printed bare after a test made by a closure or helper this rule does not read: whether it excludes && / || operands '
+                      'is not decided', loc)
     else:
         run.proved(rule, impl, 'parens', f'{n} operand writes: an operand is printed bare only when it is known not to be an && / || expression', loc)
     run.floor(rule, 'operand writes in Display for Expr', n, 4)
